@@ -290,7 +290,8 @@ func plausibleNames(c *runner.Ctx) {
 	names := []string{"min", "max", "len", "ne", "oneof", "contains", "mobile", "regexp", "startswith", "endswith", "gte", "lte",
 		"length", "size", "between", "notnull", "nonzero", "notempty", "alpha", "alnum", "numeric", "number", "uuid", "url", "uri", "ipaddr",
 		"jsonstr", "ascii", "lower", "upper", "enum", "pattern", "range", "eqfield", "default", "omitempty", "dive", "optional", "str", "string", "bool",
-		"Required", "PHONE", "In", "to_", "_to", "eq2", "re2", "either2", "botheq_"}
+		"Required", "PHONE", "In", "to_", "_to", "eq2", "re2", "either2", "botheq_",
+		"required_with", "required_if", "requiredx", "exists", "exist_in", "existing", "exist2", "eitherx", "botheqs"}
 	type ep struct {
 		name string
 		run  func(rule, fnName string, fn valid.CommonValidFn) error
@@ -961,7 +962,7 @@ func main() {
 		Technique: "complete product of tag rules x typed/unscoped rule sets x function definitions (per-call/global/built-in) x values x entry points vs selection model",
 		Rule: "9 named (Outer,Inner) type pairs sharing the field name Name with tag rule in {none, required, to=2~3}; rule set for Outer in {absent, empty, {Name}, {Name,In}}, for Inner in {absent, empty, {Name}, {Code}}, " +
 			"unscoped in {absent, empty, {Name}, {Name,L}}, registered in three orders; 72 value assignments; entry points VStruct.SetRule, Struct(v,rm), StructForFn(s), NestedStructForRule; function names phone (built-in) and zz (unknown) " +
-			"defined at every subset of {per call, global} (one worker set per global registration set, plus one in which every type has been validated before the global functions are registered, a space of names registered between two validations of one type, and two distinct struct types that print alike with a rule set for one of them); 53 names a user of another validation library would pick (min, max, len, mobile, regexp, ...) x 5 entry points x 3 rule forms x {no function, call-supplied} x {not registered, registered globally}; expected clause string from the walk model; non-trivial = Outer and Inner both carry a non-empty rule set for the shared field name",
+			"defined at every subset of {per call, global} (one worker set per global registration set, plus one in which every type has been validated before the global functions are registered, a space of names registered between two validations of one type, and two distinct struct types that print alike with a rule set for one of them); 62 names a user of another validation library would pick (min, max, len, mobile, regexp, ...) x 5 entry points x 3 rule forms x {no function, call-supplied} x {not registered, registered globally}; expected clause string from the walk model; non-trivial = Outer and Inner both carry a non-empty rule set for the shared field name",
 		Assumptions: []string{"a non-empty typed set for the outermost type combined with a non-empty unscoped set is not specified and not enumerated", "unscoped sets are exercised with single-struct inputs"},
 		Run:         run,
 		Modes:       []runner.Mode{{Name: "g"}, {Name: "gp"}, {Name: "gz"}, {Name: "gpz"}, {Name: "gpzL", Workers: 8}},
